@@ -1025,10 +1025,13 @@ def rule_eval_parent_set(db: ProgramDB) -> List[Instance]:
                 out.append(inst("EVAL-PARENT-SET", UNDECIDED, m, f"{short}[{recv}]", "evaluation site not located in the control-flow graph", line=s.line))
                 continue
 
-            def sets(nd, recv=recv):
+            from ..facts import alias_closure
+            names_for_recv = {recv} | alias_closure(m, {recv})       # the operand may have been taken into a local first
+
+            def sets(nd, recv=recv, names_for_recv=names_for_recv):
                 a = nd.ast
                 return nd.kind == "stmt" and isinstance(a, ast.Assign) and any(
-                    isinstance(t, ast.Attribute) and t.attr == "_eval_parent_" and unparse(t.value) == recv for t in a.targets) and unparse(a.value) == "self"
+                    isinstance(t, ast.Attribute) and t.attr == "_eval_parent_" and unparse(t.value) in names_for_recv for t in a.targets) and unparse(a.value) == "self"
             p = cfg.find_path(cfg.entry, lambda nd: nd.id == node.id, kinds=("n",), blocked=sets)
             ok = p is None
             out.append(inst("EVAL-PARENT-SET", HOLDS if ok else VIOLATION, m, f"{short}[{recv} told who evaluates it]",
